@@ -215,6 +215,8 @@ func (r *SparseInt8Matrix) MdotM(a, b ConstMatrix) Matrix {
      r.storageLocation() == b.storageLocation() {
     panic("result and argument must be different matrices")
   }
+  // the products are accumulated into r
+  r.Reset()
   t1 := NullScalar(r.ElementType())
   for it := a.ConstIterator(); it.Ok(); it.Next() {
     i, j := it.Index()
